@@ -20,6 +20,15 @@ RULE = ('(a) compute_features on generated signals (as C01: off-band / narrow / 
         "taken out again, invalid f_range, centre or burst method) on the case's own array and option objects directly "
         'before the judged analysis; (the direct compute_shape_features stream: refilled buffer and read-only input '
         'only); all oracles and the model comparison apply to the judged analysis unchanged (counters in the evidence). '
+        '~15 % of the cases (kind +len, drawn from a generator seeded with the case content; all other cases are '
+        'unchanged) have fs, the band (f_lo, 2 f_lo, rhythm inside) and one length option re-chosen from a table '
+        'derived by search, so that a length the analysis converts to samples with a ceil -- fs * n_cycles / '
+        'f_lo or fs * n_seconds of the extrema filter, of the band_amp envelope (3 cycles; n_cycles of a direct '
+        "compute_shape_features call) or of the detector's filter, min_n_cycles * fs / f_lo or "
+        'min_burst_duration * fs of the detector -- is exactly an odd / even integer or one ulp beside one, in '
+        '80 % where the mathematically equivalent binary64 computations of it disagree after the ceil; half of '
+        "these cases with broadband noise added to the samples (+rough); reference kernels get the caller's "
+        'arguments as they are.  '
         'non-trivial = table with >= 3 rows')
 ASSUMPTIONS = ['signals finite', 'band_amp compared with tolerance (numpy pairwise summation)',
                'float32 samples: voltage differences are correctly rounded single-precision results, compared at 1e-6']
